@@ -109,6 +109,8 @@ def _registry(rng):
         reg("cumulative_integrate", lambda d, dim: dnp.cumulative_integrate(d, dim)),
         reg("remove_background", lambda d, dim: dnp.remove_background(d, dim, 1)),
         reg("remove_background-regions", lambda d, dim: dnp.remove_background(d, dim, 1, [(0.0, 1.0)])),
+        reg("remove_background-func", lambda d, dim: dnp.remove_background(d, dim, func=lin, p0=(1.0, 0.0))),
+        reg("background-func", lambda d, dim: dnp.background(d, dim, func=lin, p0=(1.0, 0.0))),
         reg("left_shift", lambda d, dim: dnp.left_shift(d, dim, 1)),
         reg("normalize", lambda d, dim: dnp.normalize(d)),
         reg("normalize-dim", lambda d, dim: dnp.normalize(d, dim=dim)),
@@ -119,7 +121,7 @@ def _registry(rng):
         reg("integrate-regions-kept", lambda d, dim: dnp.integrate(d, dim, ARGS.keep([(0.0, 1.0), (0.5, 9.0)]))),
         reg("phase_cycle-array", lambda d, dim: dnp.phase_cycle(d, dim, ARGS.keep(np.array([0, 1])))),
         reg("phase-array-p1", lambda d, dim: dnp.phase(d, dim, 10.0, ARGS.keep(np.linspace(0.0, 5.0, d.shape[d.dims.index(dim)])))),
-        reg("create_complex-kept", lambda d, dim: dnp.create_complex(d, ARGS.keep(np.real(d.values).copy()), ARGS.keep(np.imag(d.values).copy()))),
+        reg("create_complex-kept", lambda d, dim: dnp.create_complex(d, ARGS.keep(np.real(d.values[..., 0]).copy()), ARGS.keep(np.imag(d.values[..., 0]).copy()))),
         reg("interp-bad", lambda d, dim: dnp.interp(d, dim, np.zeros((2, 2)))),
         reg("ndalign", lambda d, dim: dnp.ndalign(d, dim)),
         reg("ndalign-bad", lambda d, dim: dnp.ndalign(d, dim, center=1.0)),
@@ -130,8 +132,9 @@ def _registry(rng):
         reg("pseudo_modulation", lambda d, dim: dnp.pseudo_modulation(d, 0.5, dim=dim)),
         reg("fit", lambda d, dim: dnp.fit(lin, d.real, dim, (1.0, 0.0))["popt"]),
         reg("fit-bad", lambda d, dim: dnp.fit(lin, d.real, dim, (1.0, 0.0, 2.0))["popt"]),
-        reg("create_complex-arrays", lambda d, dim: dnp.create_complex(d, np.real(d.values), np.imag(d.values))),
-        reg("update_axis", lambda d, dim: dnp.update_axis(d, (0.0, 1.0), dim=0, new_dims="q")),
+        reg("create_complex-arrays", lambda d, dim: dnp.create_complex(d, np.real(d.values[..., 0]), np.imag(d.values[..., -1]))),
+        reg("update_axis", lambda d, dim: dnp.update_axis(d, (0.0, 1.0), dim=d.dims.index(dim), new_dims="q")),
+        reg("update_axis-log", lambda d, dim: dnp.update_axis(d, (0.0, 2.0), dim=d.dims.index(dim), new_dims="q", spacing="log")),
         reg("get_slice", lambda d, dim: dnp.get_slice(d, dim, 0)),
         reg("np.abs", lambda d, dim: np.abs(d)),
         reg("np.real", lambda d, dim: np.real(d)),
@@ -143,6 +146,9 @@ def _registry(rng):
         reg("reorder-kept-list", lambda d, dim: (lambda c, o: (c.reorder(o), c)[1])(d.copy(), ARGS.keep([d.dims[-1]]))),
         reg("rename-then-reorder-kept", lambda d, dim: (lambda c, o: (c.reorder(o), c)[1])(d.copy(), ARGS.keep(list(reversed(d.dims))))),
         reg("np.max-axis", lambda d, dim: np.max(d, axis=dim)),
+        # several axes at once, named (the partner is chosen by NAME so that the call means the same for every axis order)
+        reg("np.sum-tuple", lambda d, dim: np.sum(d, axis=(dim, sorted(x for x in d.dims if x != dim)[0]))),
+        reg("np.mean-tuple-rev", lambda d, dim: np.mean(d, axis=(sorted(x for x in d.dims if x != dim)[-1], dim))),
         reg("copy", lambda d, dim: d.copy()),
         reg("real", lambda d, dim: d.real),
         reg("getitem", lambda d, dim: d[dim, (0.25, 1.0)]),
@@ -176,7 +182,7 @@ def registry_oracle(tier, seed):
     shapes = [([8], 0), ([3, 8], 1), ([8, 2], 0)] + ([([2, 8, 3], 1)] if tier == "thorough" else [])
     for shape, k in shapes:
         for cplx in (False, True):
-            for with_attrs in (False, True):
+            for with_attrs, view in ((False, False), (True, False), (True, True)):
                 for name, fn, _ in _registry(rng):
                     dims = ["t2" if i == k else ("Average" if i == 0 else "x%d" % i) for i in range(len(shape))]
                     if name.startswith("inverse"):
@@ -191,7 +197,13 @@ def registry_oracle(tier, seed):
                     if with_attrs:
                         kw = {"attrs": {"nmr_frequency": 4e8, "experiment_type": "nmr_spectrum", "lst": [1, 2]},
                               "dnplab_attrs": {"frequency": 4e8}, "proc_attrs": [("step", {"p": [1, 2]})]}
-                    d = dnp.DNPData(vals.copy(), list(dims), [c.copy() for c in coords], **kw)
+                    if view:
+                        # the object's values are a NON-OWNING view (as after reorder, a fold, or construction from a slice)
+                        buf = np.concatenate([vals.ravel(), vals.ravel()[:1]])
+                        vals_arg = buf[:-1].reshape(shape)
+                    else:
+                        vals_arg = vals.copy()
+                    d = dnp.DNPData(vals_arg, list(dims), [c.copy() for c in coords], **kw)
                     before = deep_snap(d)
                     ARGS.kept = []
                     ARGS.shared_plain = False
